@@ -333,7 +333,7 @@ PROPERTY = Property(
     pid="C09", props_file="Props/C09.v",
     suites=[
         Suite("orders", gen_orders, "run_orders", REQ, "judge_orders", orders_to_coq, known=known_orders,
-              mutate=mutate_orders, stratum=stratum_orders, shard=40),
+              mutate=mutate_orders, stratum=stratum_orders, shard=160),
         Suite("oldsort", gen_oldsort, "run_oldsort", REQ, "judge_oldsort", oldsort_to_coq, shard=400),
     ],
     rule="rule sets (1-4 plain rules, correlation rules referring by name or id (ids spelled canonically, upper case, "
